@@ -89,8 +89,14 @@ func dumpIncomplete(d string) string {
 	if m := reIncomplete.FindString(s); m != "" {
 		return strings.TrimSpace(m)
 	}
-	if strings.Contains(s, "(block)") && false {
-		return "empty block"
+	// a block introduced by a header (如果 / 再如 / 否则 / 每当 / 遍历 / 如何 / 拦截 …) needs at least
+	// one statement, 令： at least one pair: only the program's own top-level block may be empty
+	t := strings.Replace(s, "(exec (inputs) (block)", "(exec (inputs) (top)", 1)
+	if strings.Contains(t, "(block)") {
+		return "a block without any statement"
+	}
+	if strings.Contains(t, "(let)") {
+		return "令： without any pair"
 	}
 	return ""
 }
